@@ -630,6 +630,10 @@ func (e *Env) call(x ECall) Val {
 		if lit, ok := x.Args[1].(EStr); ok {
 			return VInt{sel(c.heapGet(e.st, "G$gf."+lit.V, arrSort(sInt)), e.evalInt(x.Args[0]))}
 		}
+	case "gfa": // gfa(p, "name", i): element i of a ghost Int array attached to the object p points to
+		if lit, ok := x.Args[1].(EStr); ok {
+			return VInt{selN(c.heapGet(e.st, "G$gfa."+lit.V, mapSort(2, sInt)), []string{e.evalInt(x.Args[0]), e.evalInt(x.Args[2])})}
+		}
 	case "at": // element of a slice at an absolute index of its backing array
 		if s, ok := e.eval(x.Args[0]).(VSlice); ok {
 			p := VPtr{Root: rootElem, Ref: s.Base, Idx: e.evalInt(x.Args[1]), T: s.Elem, Reg: s.Reg}
